@@ -105,6 +105,9 @@ func (ch *ConnectionHandler) muxHandler(protocol string, downstreamConnection io
 			if err != nil {
 				return err
 			}
+			// PipeData closes the side opposite to the one that ended: when the service hangs up first, our end of the
+			// connection to it is still open
+			defer streams.TryClose(upstreamConnection)
 			return streams.PipeData(downstreamConnection, upstreamConnection)
 		}
 	}
